@@ -6,7 +6,7 @@
 //!   unpolled : create tell(1), yield, drop it, yield                        -> []
 //!   deferred : create tell(1), tell(2).await, then await the first           -> [2, 1]
 //!   raced    : tell(7) loses a biased select! before being polled, tell(8)   -> [8]
-//!   late     : (timeout variants) create x_with_timeout(9, 50 ms), sleep 300 ms, then await it:
+//!   late     : (timeout variants) create x_with_timeout(9, 500 ms), sleep 800 ms, then await it:
 //!              the operation - and with it its deadline - begins at the first poll -> Ok
 //!   overdue  : (timeout variants) poll x_with_timeout(10, 60 ms) once - the actor answers within
 //!              microseconds -, keep the thread busy for 250 ms, then await it: the operation had
@@ -120,8 +120,8 @@ async fn run(name: &str, mk: impl Fn(&ActorRef<L>) -> Route) {
         let raced = format!("{:?}", log.lock().unwrap().clone());
         // late
         let late = if timed {
-            let f9 = route.send_within(9, std::time::Duration::from_millis(50));
-            tokio::time::sleep(std::time::Duration::from_millis(300)).await;
+            let f9 = route.send_within(9, std::time::Duration::from_millis(500));
+            tokio::time::sleep(std::time::Duration::from_millis(800)).await;
             f9.await
         } else {
             true
